@@ -84,14 +84,20 @@ theorem gstep_eq_pstep (kind : Kind) (h : Nat → Nat) (ps : PState) (s : State)
   cases op with
   | append t k v =>
     simp only [gstep, pstep, hav, Bool.not_true, Bool.false_eq_true, if_false]
-    rw [gInsert_eq kind h _ _ k v (by simp)]
-    cases (ps.get t).insert kind h (.stl (ps.get t).self) k v <;> simp [insertOut]
+    cases kind <;> simp only [gen_map_append, gen_set_append _ _ k v, gen_pool_append _ _ k v] <;>
+      (cases (ps.get t).insert _ h (.stl (ps.get t).self) k v <;> simp)
   | prepend t k v =>
     obtain ⟨hr, hself⟩ := hp.get t
     have hi := hs.get t
+    have hb : ∀ kind, (ps.get t).begin ≠ .item ((ps.get t).allocItem kind).1 := fun kind => by
+      rw [hr.begin_nxtAt]; exact hr.alloc_ne_pos hi kind 0
     simp only [gstep, pstep, hav, Bool.not_true, Bool.false_eq_true, if_false]
-    rw [gInsert_eq kind h _ _ k v (by rw [hr.begin_nxtAt]; exact hr.alloc_ne_pos hi kind 0)]
-    cases (ps.get t).insert kind h (ps.get t).begin k v <;> simp [insertOut]
+    cases kind
+    · simp only [gen_map_prepend _ _ k v (hb _)]
+      cases (ps.get t).insert Kind.map h (ps.get t).begin k v <;> simp
+    · simp only [gen_set_prepend _ _ k v (hb _)]
+      cases (ps.get t).insert Kind.set h (ps.get t).begin k v <;> simp
+    · simp [Op.available] at hav
   | insert t pos k v =>
     obtain ⟨hr, hself⟩ := hp.get t
     have hi := hs.get t
@@ -156,10 +162,21 @@ theorem gstep_eq_pstep (kind : Kind) (h : Nat → Nat) (ps : PState) (s : State)
       | none => simp
       | some l => cases r <;> simp [findResult, iterOf]
   | contains t k =>
-    simp only [gstep, pstep, hav, Bool.not_true, Bool.false_eq_true, if_false, gFind_eq]
-    cases (ps.get t).find h k with
-    | none => simp
-    | some r => cases r <;> simp [findResult, iterOf]
+    simp only [gstep, pstep, hav, Bool.not_true, Bool.false_eq_true, if_false]
+    cases kind <;> simp only [gen_map_contains, gen_set_contains, gen_pool_contains] <;>
+      (cases (ps.get t).find h k <;> rfl)
+  | size t =>
+    simp only [gstep, pstep, hav, Bool.not_true, Bool.false_eq_true, if_false]
+    cases kind <;> rfl
+  | isEmpty t =>
+    simp only [gstep, pstep, hav, Bool.not_true, Bool.false_eq_true, if_false]
+    cases kind <;> rfl
+  | front t =>
+    simp only [gstep, pstep, hav, Bool.not_true, Bool.false_eq_true, if_false]
+    cases kind <;> simp only [gen_map_front, gen_set_front, gen_pool_front] <;> (cases (ps.get t).begin <;> rfl)
+  | back t =>
+    simp only [gstep, pstep, hav, Bool.not_true, Bool.false_eq_true, if_false]
+    cases kind <;> simp only [gen_map_back, gen_set_back, gen_pool_back] <;> (cases (ps.get t).endPrev <;> rfl)
   | assign t =>
     simp only [gstep, pstep, hav, Bool.not_true, Bool.false_eq_true, if_false]
     cases kind <;> simp only [gAssign, gen_map_assign, gen_set_assign]
